@@ -321,7 +321,32 @@ def body_cov(case, ctx):
             ctx.known("KF-C04-hyperbolic-domain-nan", f"{name}.domain", msg)
         else:
             ctx.fail(f"{name}.domain", msg)
-    else:
+    # ---- the same nodes and weights declared on a strict SUB-interval of the rule's domain (what a chained transform or a
+    # hand-made OneDGrid produces): the new domain is the ordered image of THAT interval, not of the transform's whole domain
+    try:
+        from grid.basegrid import OneDGrid
+
+        xa, xb = float(np.min(x)), float(np.max(x))
+        a_sub = 0.5 * (d0 + xa) if np.isfinite(d0) else xa - 1.0
+        b_sub = 0.5 * (d1 + xb) if np.isfinite(d1) else xb + 1.0
+        if d0 < a_sub <= xa and xb <= b_sub < d1:
+            fa, fb = O.value(rf.F, O.M(a_sub)), O.value(rf.F, O.M(b_sub))
+            if fa is not None and fb is not None and mp.isfinite(fa) and mp.isfinite(fb) and abs(float(fa)) < O.TRIM_VALUE and abs(float(fb)) < O.TRIM_VALUE:
+                sub_new = tf.transform_1d_grid(OneDGrid(x.copy(), w.copy(), (a_sub, b_sub)))
+                want_sub = sorted([float(fa), float(fb)])
+                got_sub = tuple(float(v) for v in sub_new.domain)
+                sens = []
+                for pt_, ref_ in ((a_sub, float(fa)), (b_sub, float(fb))):
+                    f1_ = O.derivs(rf.F, O.M(pt_), 1)[0]
+                    sens.append((ref_, RT * max(1.0, abs(ref_)) + (CS * EPS * float(abs(O.M(pt_)) + rf.px) * abs(float(f1_)) if f1_ is not None else 0.0)))
+                tol_of = dict(sens)
+                ok_sub = all(abs(g - r_) <= tol_of[r_] for g, r_ in zip(got_sub, want_sub))
+                ctx.cls("sub-interval-domain-compared")
+                if not ok_sub:
+                    ctx.fail(f"{name}.domain", f"{head}: grid declared on the sub-interval {(a_sub, b_sub)!r}: new domain {got_sub!r}, ordered image is {tuple(want_sub)!r}")
+    except ValueError:
+        pass  # OneDGrid / trimming refusals are covered by the main call above
+    if end_ok(g0, want[0]) and end_ok(g1, want[1]):
         fin = np.isfinite(P)
         slack = np.where(fin, node_tol + RT * np.maximum(1.0, np.abs(np.where(fin, P, 0.0))), 0.0)
         if not (g0 <= g1 and np.all(P[fin] >= g0 - slack[fin]) and np.all(P[fin] <= g1 + slack[fin]) and not np.any(np.isnan(P))):
